@@ -41,7 +41,7 @@ PROPS = {
     "C07": dict(units=["u4_policy", "u1_estimator", "u19_async_policy", "u8_builder", "u8_builder_async", "u6_store", "u7_glue", "u19_async"], kani=[], replay=["policy", "estimator", "cache", "async_cache"]),
     "C13": dict(units=["u1_estimator", "u8_builder", "u8_builder_async"], kani=["bbloom"], replay=["estimator", "cache"]),
     "C14": dict(units=["u1_estimator"], kani=["bbloom"], replay=["estimator"]),
-    "C20": dict(units=["u1_estimator", "u8_builder", "u7_glue", "u19_async", "u8_builder_async"], kani=["bbloom"], replay=["estimator", "cache", "async_cache"]),
+    "C20": dict(units=["u1_estimator", "u8_builder", "u7_glue", "u19_async", "u8_builder_async", "u6_store"], kani=["bbloom", "ttl"], replay=["estimator", "cache", "async_cache"]),
     "C02": dict(units=["u6_store", "u7_glue", "u19_async", "u8_builder", "u8_builder_async"], kani=["keys"], replay=["ttl", "async_sweep", "cache", "async_cache"]),
     "C03": dict(units=["u6_store", "u7_glue", "u19_async"], kani=["ttl"], replay=["ttl", "async_sweep"]),
     "C04": dict(units=["u6_store", "u4_policy", "u7_glue", "u19_async", "u19_async_policy", "u8_builder", "u8_builder_async"], kani=["ttl", "keys"], replay=["ttl", "async_sweep", "policy", "cache", "async_cache"]),
